@@ -151,6 +151,8 @@ func runtimeInternalCrash(stderr string) bool {
 
 func workerBin(pi *propInfo) string {
 	switch {
+	case pi.mode == "race":
+		return filepath.Join(binDir, "worker-race-instrc.test")
 	case pi.Race && os.Getenv("VERIF_RACE") != "0":
 		return filepath.Join(binDir, "worker-race-instr.test")
 	case pi.Instr:
@@ -175,6 +177,12 @@ func runJob(scratch string, id int, job worker.Job, pi *propInfo, perRunTimeout 
 		ef, _ := os.Create(errFile)
 		cmd := exec.Command(workerBin(pi), "-test.run", "^TestWorker$", "-test.timeout", "0", "-test.count", "1")
 		cmd.Env = append(os.Environ(), "VERIF_JOB="+jf, "GOMAXPROCS="+envOr("VERIF_WORKER_GOMAXPROCS", "2"), "GORACE=halt_on_error=1 exitcode=66")
+		if pi.mode == "race" {
+			// engine C under the race detector: reports are collected by the worker itself after every
+			// run (worker/racelog.go), the harness's own bookkeeping is filtered out there
+			rlog := filepath.Join(scratch, fmt.Sprintf("race-w%d-%d", id, attempt))
+			cmd.Env = append(os.Environ(), "VERIF_JOB="+jf, "GOMAXPROCS="+envOr("VERIF_WORKER_GOMAXPROCS", "2"), "GORACE=halt_on_error=0 exitcode=0 log_path="+rlog, "VERIF_RACELOG="+rlog)
+		}
 		cmd.Stdout = ef
 		cmd.Stderr = ef
 		if err := cmd.Start(); err != nil {
@@ -663,6 +671,16 @@ func sanitize(s string) string {
 	return out
 }
 
+// raceVariant: the same engine in a race-detector build of the same instrumented copy (the hand-over
+// between the scheduled goroutines is invisible to the detector: two accesses the program itself does
+// not order are reported even though the scheduler never lets them overlap in time).
+func raceVariant(pi *propInfo) *propInfo {
+	e := *pi
+	e.mode = "race"
+	e.Rule = pi.Rule + " [race-detector build, other seeds]"
+	return &e
+}
+
 func doReplay(path string) int {
 	b, err := os.ReadFile(path)
 	if err != nil {
@@ -678,6 +696,9 @@ func doReplay(path string) int {
 	}
 	if pi.Engine != rf.Engine && pi.Also != nil && pi.Also.Engine == rf.Engine {
 		pi = pi.Also // the property's second engine (it may run another worker binary)
+	}
+	if pi.RaceAlso && rf.Expect != nil && strings.HasSuffix(rf.Expect.Oracle, ".no-race") {
+		pi = raceVariant(pi)
 	}
 	scratch, _ := os.MkdirTemp("", "orda-verif.")
 	defer os.RemoveAll(scratch)
@@ -739,6 +760,9 @@ func runEngine(pi *propInfo, prop, tier string, seed int64, workers, budget, max
 			defer wg.Done()
 			job := worker.Job{Engine: pi.Engine, Property: prop, Tier: tier, Mode: "seeds", BatchSeed: uint64(seed),
 				First: w, Stride: workers, DeadlineMs: deadline, Known: knownKeys, Twice: pi.Twice}
+			if pi.mode == "race" {
+				job.BatchSeed ^= 0x5ace0000
+			}
 			if pi.mode == "enum" {
 				job.Mode = "enum"
 				job.MaxPairs = pi.EnumPairsQuick
@@ -925,6 +949,9 @@ func doCheck(prop, tier string) int {
 		e.mode = "enum"
 		e.Rule = pi.EnumRule
 		engines = append(engines, &e)
+	}
+	if pi.RaceAlso {
+		engines = append(engines, raceVariant(pi))
 	}
 	total := worker.Agg{Faults: map[string]int{}, Probes: map[string]int{}, Known: map[string]int{}}
 	hashes := map[uint64]bool{}
